@@ -224,3 +224,14 @@ Proof.
   intros c. repeat split; try reflexivity; intros m x b;
     [exact (type_option c ROffer m x b)|exact (type_option c RAck m x b)].
 Qed.
+
+(* the fixed header of every reply, by field group *)
+Lemma header_constants t m :
+  let h := reply_header t m in h_op h = 2 /\ h_htype h = 1 /\ h_hlen h = 6 /\ h_hops h = 0 /\ h_cookie h = 1669485411.
+Proof. repeat split. Qed.
+Lemma header_cleared t m :
+  let h := reply_header t m in h_secs h = 0 /\ h_flags h = 0 /\ h_siaddr h = 0 /\ h_giaddr h = 0 /\ h_zeroed h = true.
+Proof. repeat split. Qed.
+Lemma header_ciaddr t m :
+  h_ciaddr (reply_header t m) = match t with RNak => 0 | _ => m_ciaddr m end.
+Proof. reflexivity. Qed.
